@@ -50,17 +50,18 @@ type Case struct {
 }
 
 type OpObs struct {
-	Outcome  string     `json:"outcome"`
-	ErrText  string     `json:"err_text,omitempty"`
-	Trace    []eng.TEv  `json:"trace"`
-	Rendered []eng.Res  `json:"rendered,omitempty"`
-	RHooks   []eng.Hook `json:"rendered_hooks,omitempty"`
-	Gates    int        `json:"gates"`           // gates this operation passed
-	Created  []int      `json:"created"`         // revisions whose driver Create succeeded
-	Refused  []int      `json:"refused"`         // revisions whose driver Create answered "exists"
-	Muts     []sim.Mut  `json:"muts,omitempty"`  // effective cluster mutations attributed to it
-	MutCalls int        `json:"mutating_calls"`  // mutating kube.Interface calls it issued
-	Panic    string     `json:"panic,omitempty"`
+	Outcome   string     `json:"outcome"`
+	ErrText   string     `json:"err_text,omitempty"`
+	Trace     []eng.TEv  `json:"trace"`
+	Rendered  []eng.Res  `json:"rendered,omitempty"`
+	RHooks    []eng.Hook `json:"rendered_hooks,omitempty"`
+	Gates     int        `json:"gates"`                // gates this operation passed
+	Created   []int      `json:"created"`              // revisions whose driver Create succeeded
+	Refused   []int      `json:"refused"`              // revisions whose driver Create answered "exists"
+	Muts      []sim.Mut  `json:"muts,omitempty"`       // effective cluster mutations attributed to it
+	MutCalls  int        `json:"mutating_calls"`       // mutating kube.Interface calls it issued
+	FirstLast string     `json:"first_last,omitempty"` // status of the highest revision at its FIRST history read ("none": empty history)
+	Panic     string     `json:"panic,omitempty"`
 }
 
 type Obs struct {
@@ -70,7 +71,7 @@ type Obs struct {
 	Objs      map[string]map[string]string `json:"objs"`
 	Effective []int                        `json:"effective"` // schedule entries that released a gate
 	Hang      string                       `json:"hang,omitempty"`
-	Probe     []string                     `json:"probe,omitempty"` // findings of the lock-discipline probe
+	Probe     []string                     `json:"probe,omitempty"`     // findings of the lock-discipline probe
 	StoreLog  []StoreEv                    `json:"store_log,omitempty"` // successful driver creates / deletes, in global order
 }
 
@@ -186,6 +187,19 @@ func (d *gdrv) List(f func(*rspb.Release) bool) ([]*rspb.Release, error) {
 func (d *gdrv) Query(l map[string]string) ([]*rspb.Release, error) {
 	d.o.gate()
 	rs, err := d.inner.Query(l)
+	if _, byStatus := l["status"]; !byStatus {
+		d.o.mu.Lock()
+		if d.o.obs.FirstLast == "" {
+			d.o.obs.FirstLast = "none"
+			best := -1
+			for _, r := range rs {
+				if r != nil && r.Info != nil && r.Version > best {
+					best, d.o.obs.FirstLast = r.Version, string(r.Info.Status)
+				}
+			}
+		}
+		d.o.mu.Unlock()
+	}
 	return d.outs(rs), err
 }
 func (d *gdrv) Create(key string, r *rspb.Release) error {
@@ -266,6 +280,7 @@ func (c *gclient) DeleteWithPropagationPolicy(rs kube.ResourceList, pol metav1.D
 	c.call("delete", func() { res, errs = c.Client.DeleteWithPropagationPolicy(rs, pol) })
 	return
 }
+
 // GetWaiter answers like kube.Client.GetWaiter: only the three known strategies have a
 // waiter (here: the stub), anything else — in particular the empty strategy of an action
 // built without one — is "unknown wait strategy".
@@ -284,7 +299,7 @@ func (w *waiter) Wait(kube.ResourceList, time.Duration) error {
 	return nil
 }
 func (w *waiter) WaitWithJobs(rs kube.ResourceList, d time.Duration) error { return w.Wait(rs, d) }
-func (w *waiter) WaitForDelete(kube.ResourceList, time.Duration) error       { return nil }
+func (w *waiter) WaitForDelete(kube.ResourceList, time.Duration) error     { return nil }
 func (w *waiter) WatchUntilReady(kube.ResourceList, time.Duration) error {
 	w.o.log(eng.TEv{Call: "hookwatch"})
 	return nil
